@@ -169,6 +169,12 @@ func TestCheck(t *testing.T) {
 	gatedFloors := map[string]int{"readdir-backoff-entry-detached-meanwhile": 30, "readdir-backoff-entry-kept": 3, "readdir-backoff-in-a-resumed-listing": 10,
 		"backoff-entry-detached-meanwhile:lookup": 5, "backoff-entry-detached-meanwhile:remove": 5, "backoff-entry-detached-meanwhile:rename-onto": 5,
 		"backoff-entry-kept:lookup": 2, "backoff-entry-kept:remove": 2, "backoff-entry-kept:rename-onto": 2}
+	gatedFloors["rename-source-changed-during-backoff"] = 15
+	for _, mut := range []string{"remove", "recreate", "swap", "keep"} {
+		for _, where := range []string{"same-directory", "cross-directory"} {
+			gatedFloors["rename-source-changed-during-backoff:"+mut+":"+where] = 2
+		}
+	}
 	for s, n := range gatedFloors {
 		r.Floor(s, n)
 	}
@@ -212,7 +218,7 @@ func TestCheck(t *testing.T) {
 			jobs = append(jobs, job{"direct", c, i})
 		}
 	}
-	nGated := r.Pick(80, 1200)
+	nGated := r.Pick(100, 1500)
 	for c := range cfgs {
 		for i := 0; i < nGated; i++ {
 			jobs = append(jobs, job{"gated", c, i})
